@@ -248,6 +248,8 @@ def instances(tier):
         first_row_zero = bool(np.all(np.asarray(cls.tableau_intermediate, dtype=np.float64)[0] == 0.0))
         if s <= 2 or first_row_zero:
             out.append(dict(id="%s-param-change-scalar" % n, cls=n, kind="param_change", shape=[1], budget=bs))
+            # the same object takes a second step of ANOTHER size (any two sizes of the same sign, however close or tiny)
+            out.append(dict(id="%s-step-size-change-scalar" % n, cls=n, kind="param_change", shape=[1], step_change=True, budget=bs))
     return out
 
 
@@ -713,7 +715,12 @@ def _scn_param_change(c, inst, d):
         y1 = y + dY
         y1c = y1[0]
         n0 = len(log)
-        st, r = run(integ, rhs, t + dT, y1, dict(lam=lam1), h)
+        h2 = h
+        if inst.get("step_change"):
+            h2 = c.real("h2")
+            c.assume(h2 * h > 0)
+            c.assume(h2 != h)
+        st, r = run(integ, rhs, t + dT, y1, dict(lam=lam1), h2)
     if st != "ok":
         c.check("c11.param.second_call_returns", False, info=repr(r))
         return
@@ -727,7 +734,7 @@ def _scn_param_change(c, inst, d):
     c.case()
     c.check("c11.param.step_after_parameter_change_does_not_increase_modulus", c.le(y2 * y2, (1 + SLACK) * y1c * y1c, 1), info=dict(cls=inst["cls"]))
     # and it is the stability-function step of the new equation: Q(z)*y2 = P(z)*y1 with z = h*lam1
-    z = h * lam1
+    z = h2 * lam1
     P = sum((_coef(c, k) * z ** i for i, k in enumerate(d["P"])), 0 * z) if "P" in d else None
     Q = sum((_coef(c, k) * z ** i for i, k in enumerate(d["Q"])), 0 * z) if "Q" in d else None
     if P is not None and Q is not None:
